@@ -386,6 +386,8 @@ func checkC12(c *Ctx) {
 	ruleX4b(c)
 	ruleX11(c)
 	ruleX12(c)
+	ruleX12b(c, "internal", "ers", "erc")
+	ruleN7(c, "ers", "erc", "internal")
 	ruleX13(c, map[string]bool{"ers": true, "erc": true, "internal": true})
 }
 
